@@ -113,4 +113,65 @@ theorem swap_programs (a b : String) (ha : bucketOf (baseName a) = .program)
 example : extensionOf "a.lp" = some "lp" ∧ extensionOf ".lp" = none ∧ extensionOf "a.b.spec" = some "spec"
     ∧ extensionOf "lp" = none ∧ extensionOf "a." = some "" ∧ extensionOf "..ug" = some "ug" := by decide
 
+/-! ## the walk: which files are visited, and in which order
+
+`Files::sort` visits every argument in the order given (`WalkDir::new(arg).sort_by_file_name()`), a directory's entries by
+name, depth first; only regular files are kept. `walkPaths` is that walk on an abstract tree. -/
+
+theorem walk_file (pre n : String) : walkPaths pre (.file n) = [pre ++ n] := by
+  rw [walkPaths]
+
+/-- a symbolic link is never visited as a file - named as an argument or found inside a directory -/
+theorem walk_link (pre n : String) : walkPaths pre (.link n) = [] := by
+  rw [walkPaths]
+
+/-- a directory: its entries in name order, depth first, under the directory's path -/
+theorem walk_dir (pre n : String) (cs : List FTree) :
+    walkPaths pre (.dir n cs) = (sortTrees cs).flatMap (walkPaths (pre ++ n ++ "/")) := by
+  rw [walkPaths]
+  generalize sortTrees cs = l
+  induction l with
+  | nil => rfl
+  | cons x xs ih => simp [List.attach_cons, List.flatMap_cons, List.flatMap_map, ih]
+
+/-- **Argument order.** The files of the first arguments come before the files of the later ones, whatever their names
+    (no sorting across arguments). -/
+theorem walk_arguments_in_order (pre : String) (a b : List FTree) :
+    (a ++ b).flatMap (walkPaths pre) = a.flatMap (walkPaths pre) ++ b.flatMap (walkPaths pre) :=
+  List.flatMap_append
+
+/-- **Links play no role.** Removing the symbolic links from a list of arguments (or of directory entries) does not change
+    the files visited. -/
+theorem links_contribute_nothing (pre : String) : ∀ l : List FTree,
+    (l.filter (fun t => !t.isLink)).flatMap (walkPaths pre) = l.flatMap (walkPaths pre) := by
+  intro l
+  induction l with
+  | nil => rfl
+  | cons t ts ih =>
+    cases t with
+    | file n =>
+      have h : (FTree.file n).isLink = false := rfl
+      rw [List.filter_cons]
+      simp only [h, Bool.not_false, if_true, List.flatMap_cons, ih]
+    | dir n cs =>
+      have h : (FTree.dir n cs).isLink = false := rfl
+      rw [List.filter_cons]
+      simp only [h, Bool.not_false, if_true, List.flatMap_cons, ih]
+    | link n =>
+      have h : (FTree.link n).isLink = true := rfl
+      rw [List.filter_cons]
+      simp only [h, Bool.not_true, List.flatMap_cons, ih, walk_link, List.nil_append]
+      exact ih
+
+theorem links_in_a_directory_contribute_nothing (pre n : String) (cs : List FTree) :
+    walkPaths pre (.dir n cs) = ((sortTrees cs).filter (fun t => !t.isLink)).flatMap (walkPaths (pre ++ n ++ "/")) := by
+  rw [walk_dir, links_contribute_nothing]
+
+/-- non-vacuity / the shape C20-13 needs: `verify d/x.lp link.lp d` with `link.lp` a symbolic link and `d` holding `b.lp`,
+    a link `a.lp` and `x.lp`: the programs are `d/x.lp` (named first) and then `d/b.lp`, `d/x.lp` from the walk of `d` -/
+example : (Files.ofPaths ([FTree.file "k.lp", .link "link.lp", .dir "d" [.file "x.lp", .link "a.lp", .file "b.lp"]].flatMap (walkPaths ""))).programs
+    = ["k.lp", "d/b.lp", "d/x.lp"] := by
+  simp [walk_file, walk_link, walk_dir, sortTrees, insertTree, FTree.name, Files.ofPaths, Files.push, bucketOf, extensionOf, baseName]
+  decide
+
 end Anthem.C20
